@@ -7,6 +7,7 @@ Oracle clauses:
   resume_value     the value of the FIRST resume() of a wait is delivered exactly once to the continuation
   resume_raises    resume() on a WAITING process raises
   ctx_missing      a completed awaitable is not found in the context when the next step starts
+  control_raises   a pause()/play() interleaved with the wake-up raises
 """
 from checks import common
 from simkit import programs
@@ -187,6 +188,11 @@ def _oracle(engine, result, case, drive):
             if record.raised is not None:
                 result.violate('resume_raises', f'{type(record.raised).__name__}@{record.context}',
                                f'resume() raised {record.raised!r} in context {record.context}')
+        if kind in ('pause', 'play') and record.raised is not None:
+            # "regardless of how the wake-up is interleaved with pause, play and other control requests": a request that
+            # blows up because a wake-up got there first is that interleaving going wrong
+            result.violate('control_raises', f'{kind}:{type(record.raised).__name__}@{record.context}',
+                           f'{kind}() raised {record.raised!r} in context {record.context}')
         if kind == 'complete' and record.result != 'skipped':
             if 'paused' in record.context:
                 result.counters['probe:complete_while_paused'] += 1
